@@ -23,11 +23,12 @@ SRCS = {
     'defs': '@dec\ndef g(p, q=1):  # sig\n    """doc"""\n    r = p * q  # m\n    return r\n\n\nclass K(B):\n    v = g(1)  # cv\n    w: int = 2\n',
     'ifelse2': 'if a:  # h\n    b = 1  # cb\n    c = 2\nelse:\n    d = 3  # cd\n    e = 4\nfor i in z:\n    f = 5\n    g = 6\nelse:\n    h = 7\n    j = 8\nk = 9\n',
     'prims': 'from ..m import n as o\nasync def f(p, *, q=u"t"):\n    r = [x async for x in y if x]\n    return r.s(k=q)  # c\nglobal g\n',
+    'callstar': 'r = f(a=b, *c)  # cr\nclass K(x, k=1, *d): pass\ns = g(e, m=n, *o, p=q)\n',
     'cmts': '# pre a\na = 1  # a\n# pre b\nb = 2  # b',
     'flow': 'for i in range(3):  # loop\n    if i:\n        continue  # c\n    t = (i,\n         i + 1)\nwhile t: t = t[1:]  # shrink\nwith a as b, c:\n    pass  # body\n',
 }
 OPS = ['none', 'cross_fields_after', 'cross_fields_into_body', 'cross_fields_foreign', 'cross_fields_body0_is_orelse0', 'expr_new', 'expr_foreign', 'stmt_delete', 'stmt_insert_new', 'stmt_swap_next', 'stmt_duplicate', 'rename', 'const_change', 'op_change', 'stmt_move_to_end',
-       'expr_swap_sibling', 'const_same_value_other_type', 'stmt_foreign_popped', 'prim_change']
+       'expr_swap_sibling', 'const_same_value_other_type', 'stmt_foreign_popped', 'prim_change', 'kwarg_to_doublestar', 'starred_to_plain']
 OTHER = 'o = other(1) + thing\nif ot:\n    oa = 1  # oa\n    ob = 2  # ob\nelse:\n    oc = 3  # oc\n    od = 4  # od\n'
 
 
@@ -124,6 +125,24 @@ def _apply(tree, op, k, other_tree):
         else:
             getattr(p, name)[idx] = new
         return touched
+    if op in ('kwarg_to_doublestar', 'starred_to_plain'):
+        # edits of a call / class header whose local replay is not possible where the node stands (a ** cannot precede a *, a plain positional cannot follow a keyword)
+        cands = []
+        for n_ in ast.walk(tree):
+            if isinstance(n_, (ast.Call, ast.ClassDef)):
+                if op == 'kwarg_to_doublestar':
+                    cands += [(n_, kw_) for kw_ in n_.keywords if kw_.arg is not None]
+                else:
+                    lst_ = n_.args if isinstance(n_, ast.Call) else n_.bases
+                    cands += [(n_, lst_, i_) for i_, a_ in enumerate(lst_) if isinstance(a_, ast.Starred)]
+        if not (0 <= k < len(cands)):
+            return None
+        if op == 'kwarg_to_doublestar':
+            cands[k][1].arg = None
+        else:
+            _n, lst_, i_ = cands[k]
+            lst_[i_] = lst_[i_].value
+        return {id(top_of(cands[k][0]) or cands[k][0])}
     if op == 'prim_change':
         # k-th (node, primitive field) pair of the tree in ast.walk order: identifiers, import level, is_async, Constant.kind / value, Global names
         pairs = _prim_pairs(tree)
@@ -307,5 +326,5 @@ for _k in SRCS:
             CELLS.append(Cell(f'P1.reconcile[{_k},rounds={_r},first={OPS[_o1]}]', _mk(_k, _r, _o1), 'P', FNR,
                               f'carrier {_k} ({len(SRCS[_k].splitlines())} lines); script: first mutation {OPS[_o1]} at node ordinal k1, second mutation (any of {len(OPS)} kinds) at k2; '
                               f'ordinals symbolic in -1..40 (finite); {_r} mark/reconcile round(s)',
-                              tier='quick' if ((_k, _r) == ('small', 1) and OPS[_o1] in ('none', 'expr_new', 'stmt_delete', 'stmt_swap_next', 'expr_foreign', 'rename', 'const_same_value_other_type', 'stmt_foreign_popped')) or ((_k, _r) == ('prims', 1) and OPS[_o1] in ('prim_change', 'none')) or ((_k, _r) == ('cmts', 1) and OPS[_o1] in ('stmt_insert_new', 'stmt_delete', 'stmt_swap_next')) or ((_k, _r) == ('ifelse2', 1) and OPS[_o1].startswith('cross_fields')) else 'thorough',
+                              tier='quick' if ((_k, _r) == ('small', 1) and OPS[_o1] in ('none', 'expr_new', 'stmt_delete', 'stmt_swap_next', 'expr_foreign', 'rename', 'const_same_value_other_type', 'stmt_foreign_popped')) or ((_k, _r) == ('prims', 1) and OPS[_o1] in ('prim_change', 'none')) or ((_k, _r) == ('cmts', 1) and OPS[_o1] in ('stmt_insert_new', 'stmt_delete', 'stmt_swap_next')) or ((_k, _r) == ('callstar', 1) and OPS[_o1] in ('kwarg_to_doublestar', 'starred_to_plain')) or ((_k, _r) == ('ifelse2', 1) and OPS[_o1].startswith('cross_fields')) else 'thorough',
                               budget=900, per_path=90, out='mutation histories > 2 ops per round; programs outside the carriers', reset=pc.reset_globals))
